@@ -144,6 +144,9 @@ func opCode(o *insts.Operand) int {
 	if o == nil {
 		return -1
 	}
+	if o.OperandType == insts.LiteralConstant {
+		return 255
+	}
 	if o.OperandType == insts.RegOperand && o.Register != nil {
 		if o.Register.IsVReg() {
 			return 256 + o.Register.RegIndex()
@@ -192,6 +195,16 @@ func run(c *Case) {
 	c.Src0, c.Src1, c.Src2, c.Dst = opCode(inst.Src0), opCode(inst.Src1), opCode(inst.Src2), opCode(inst.Dst)
 	if inst.SImm16 != nil {
 		c.Simm = int(inst.SImm16.IntValue)
+	}
+	if inst.FormatType == insts.VOP2 && (inst.Opcode == 22 || inst.Opcode == 59) {
+		c.Src2 = c.Dst // v_mac / v_fmac: the destination is the third source
+	}
+	if inst.FormatType == insts.VOP3a {
+		cl := 0
+		if inst.Clamp {
+			cl = 1
+		}
+		c.Simm = inst.Abs | inst.Neg<<3 | cl<<6 | inst.Omod<<7 // modifier fields travel in the immediate slot
 	}
 	if inst.SDst != nil {
 		c.Simm = opCode(inst.SDst) // VOP3b: the scalar destination travels in the immediate slot of the Coq inst
